@@ -236,6 +236,8 @@ class C07(Prop):
                   '<a href="http://a.com/"><em>cap</em> it</a> <a href="http://b.org/">c</a> <a href="http://c.net/" target="_blank">d</a>'),
                  ('a_b_c 1_2 x', 'a_b_c 1_2 x'),
                  ('`<http://a.com/>` &copy;', '<code>&lt;http://a.com/&gt;</code> &copy;'),
+                 # F46: what only looks like a character entity is text
+                 ('&_x; &1a; &#zz; &#; &amp &copy; &#38; &#x26; &#X26;', '&amp;_x; &amp;1a; &amp;#zz; &amp;#; &amp;amp &copy; &#38; &#x26; &#X26;'),
                  # F39: a double quote is text; it is an entity only inside the attribute value that a group is copied into
                  ('x "\\` y "z"', 'x "\\` y "z"'),
                  ('<http://x.y/"q> <a"b@c.de>', '<a href="http://x.y/&quot;q">http://x.y/"q</a> <a href="mailto:a&quot;b@c.de">a"b@c.de</a>'),
